@@ -14,6 +14,9 @@ from corr import harness
 import sopht.numeric.immersed_boundary_ops as ibo
 
 
+KINDS = ["random", "centre", "face", "centre+ulp", "centre-ulp", "cluster", "duplicate", "edge_lo", "edge_hi", "centre_one_axis"]
+
+
 def make_markers(r, dim, shape, dx, shift, n, real_t):
     """marker positions at least two cells inside the domain: random, on cell centres / faces, ± 1–2 ulp,
     clustered in one cell and duplicated"""
@@ -26,12 +29,13 @@ def make_markers(r, dim, shape, dx, shift, n, real_t):
         pos[a] = r.uniform(lo, hi, size=n)
     kinds = []
     for m in range(n):
-        kind = ["random", "centre", "face", "centre+ulp", "centre-ulp", "cluster", "duplicate", "edge_lo", "edge_hi"][m % 9]
+        kind = KINDS[m % len(KINDS)]
         kinds.append(kind)
+        one = int(r.integers(0, dim)) if m % 2 else 0     # the single axis of a `centre_one_axis` marker (x every other time)
         for a in range(dim):
             ncell = shape[dim - 1 - a]
             c = int(r.integers(2, ncell - 3))
-            if kind == "centre":
+            if kind == "centre" or (kind == "centre_one_axis" and a == one):
                 pos[a, m] = c * dx + shift
             elif kind == "face":
                 pos[a, m] = (c + 0.5) * dx + shift
@@ -138,14 +142,21 @@ def _configs(seed, tier):
     return cfgs
 
 
-def _setup(seed, dim, kernel, real_t, k):
+def _setup(seed, dim, kernel, real_t, k, dyadic=None):
+    """dyadic: power-of-two spacing and dyadic grid shift, so that markers on cell centres sit at scaled distances of exactly
+    0, 1 and 2 from the cells of their window in floating point (the break points of the piecewise kernels)"""
     r = impl.rng(seed, "interp", k)
     shape = tuple(int(v) for v in r.integers(9, 13, size=dim)) if dim == 2 else tuple(int(v) for v in r.integers(8, 11, size=3))
     if len(set(shape)) < dim:
         shape = tuple(shape[0] + i for i in range(dim))
     dx = real_t(r.uniform(0.05, 0.5))
     shift = real_t(dx / 2) if k % 3 else real_t(r.uniform(0, 0.3))
-    n = 9 if dim == 3 else 18
+    if dyadic is None:
+        dyadic = (k + seed) % 2 == 1
+    if dyadic:
+        dx = real_t([0.0625, 0.125, 0.25, 0.03125][(k // 2 + seed) % 4])
+        shift = real_t(dx / 2) if k % 3 else real_t(0.1875)
+    n = 10 if dim == 3 else 20
     pos, kinds = make_markers(r, dim, shape, float(dx), float(shift), n, real_t)
     u = r.normal(size=shape).astype(real_t)
     uvec = r.normal(size=(dim,) + shape).astype(real_t)
@@ -239,8 +250,8 @@ def _oracle_configs(seed, tier):
 def oracle_c06(seed=0, tier="quick", aimed=None):
     cases = 0
     samples = []
-    for dim, kernel, real_t, k in _oracle_configs(seed + 7, tier):
-        r, shape, dx, shift, n, pos, kinds, u, uvec, F, Fvec, E0, E0vec = _setup(seed + 7, dim, kernel, real_t, k)
+    for dim, kernel, real_t, k, dyadic in [(*c, dy) for c in _oracle_configs(seed + 7, tier) for dy in ([None, True] if c[1] == "peskin" else [None])]:
+        r, shape, dx, shift, n, pos, kinds, u, uvec, F, Fvec, E0, E0vec = _setup(seed + 7, dim, kernel, real_t, k, dyadic=dyadic)
         im = run_impl(dim, shape, dx, shift, kernel, real_t, pos, u, uvec, F, Fvec, E0, E0vec)
         eps = float(np.finfo(real_t).eps)
         tol = 3e3 * eps
